@@ -964,7 +964,7 @@ def run_c01(ctx):
             cand = list(good) if n >= len(good) else sorted(rng.sample(good, n))
             ok = model_run(label, cand, depth, True, ["NoFailure", "OrderIndependent"], None)
         # (c) seeded orders executed for real, validated by TLC against ImportsTrace.tla
-        norders = ctx.pick(48, 500)
+        norders = ctx.pick(48, 300)
         orders = [rng.sample(good, min(2 + (i % 3), len(good))) for i in range(norders)]
         real = _pmap(_run_order, orders)
         _lap("real orders")
